@@ -184,6 +184,24 @@ class Fragments(Stream):
 
 # ----------------------------------------------------------------------------- documents
 NAMES = ["a", "b", "c", "s", "t"]
+SCOPES = ["s", "t"]
+# a second pool in which names are proper prefixes of one another (scope s beside a reference $(st.x), run / runes)
+PREFIX_NAMES = ["s", "st", "x", "sx", "run", "runes"]
+PREFIX_SCOPES = ["s", "st", "run", "runes"]
+_POOL = {"names": NAMES, "scopes": SCOPES}
+
+
+def use_pool(prefix_family):
+    _POOL["names"] = PREFIX_NAMES if prefix_family else NAMES
+    _POOL["scopes"] = PREFIX_SCOPES if prefix_family else SCOPES
+
+
+def pnames():
+    return _POOL["names"]
+
+
+def pscopes():
+    return _POOL["scopes"]
 
 
 def render_word(w):
@@ -262,10 +280,10 @@ def var_names(items):
 def gen_path(rng):
     r = rng.random()
     if r < 0.55:
-        return rng.choice(NAMES)
+        return rng.choice(pnames())
     if r < 0.85:
-        return rng.choice("st") + "." + rng.choice(NAMES)
-    return rng.choice("st") + "." + rng.choice("st") + "." + rng.choice(NAMES)
+        return rng.choice(pscopes()) + "." + rng.choice(pnames())
+    return rng.choice(pscopes()) + "." + rng.choice(pscopes()) + "." + rng.choice(pnames())
 
 
 def gen_ref(rng):
@@ -289,7 +307,7 @@ def gen_word(rng, malformed):
         v = rng.choice([
             "pre$(%s)post" % N, "$(%s)$(%s)" % (N, M), "$%s$%s" % (N.lstrip("."), M.lstrip(".")), "x$" + N.lstrip("."),
             "$%s-1" % N.lstrip("."), "\\$" + N.lstrip("."), "\\$%s$(%s)" % (N.lstrip("."), M), "p $(%s) q" % N,
-            "$(%s) $(%s)" % (N, M), "x\\\\$" + N.lstrip("."), "$(%s).%s" % (N, rng.choice(NAMES)), "$(%s)(" % N])
+            "$(%s) $(%s)" % (N, M), "x\\\\$" + N.lstrip("."), "$(%s).%s" % (N, rng.choice(pnames())), "$(%s)(" % N])
     q = rng.choice("nnnnnn2221sd")
     if q == "n" and (" " in v or v == ""):
         q = "2"
@@ -304,14 +322,14 @@ def gen_items(rng, depth, malformed, budget):
             break
         budget[0] -= 1
         dis = 1 if rng.random() < 0.12 else 0
-        name = rng.choice(NAMES)
+        name = rng.choice(pnames())
         r = rng.random()
         if r < 0.12:
-            name = rng.choice("st") + "." + name
+            name = rng.choice(pscopes()) + "." + name
         elif r < 0.16:
-            name = rng.choice("st") + "." + rng.choice("st") + "." + name
+            name = rng.choice(pscopes()) + "." + rng.choice(pscopes()) + "." + name
         if depth < 3 and rng.random() < 0.30:
-            nm = name if rng.random() < 0.8 else rng.choice("st")
+            nm = name if rng.random() < 0.8 else rng.choice(pscopes())
             items.append(["s", nm, dis, gen_items(rng, depth + 1, malformed, budget)])
         else:
             nw = 1 if rng.random() < 0.75 else rng.randint(2, 3)
@@ -407,6 +425,9 @@ class Documents(Stream):
             {"doc": [d("b", ("$(1bad)", "n"))], "env": []},
             {"doc": [d("b", ("$a", "s")), d("c", ("$a", "d"))], "env": [["a", "$b"]]},
             {"doc": [d("s.t.a", ("1", "n")), ["s", "s.t", 0, [d("b", ("$a", "n"), ("$(t.a)", "n"), ("$(s.t.a)", "n"))]]], "env": []},
+            # a scope whose name is a proper prefix of the first component of a reference is not that component
+            {"doc": [d("x", ("0", "n")), ["s", "st", 0, [d("x", ("1", "n"))]], ["s", "s", 0, [d("x", ("2", "n")), d("q", ("$(st.x)", "n"), ("$(sx.x)", "n"))]]], "env": []},
+            {"doc": [d("x", ("0", "n")), ["s", "run", 0, [d("s.x", ("1", "n")), d("q", ("$(runes.x)", "n"))]]], "env": []},
         ]
 
     def cases(self, rng, tier):
@@ -418,6 +439,14 @@ class Documents(Stream):
             malformed = i % 4 == 0
             doc = gen_items(rng, 0, malformed, [rng.randint(2, 9)])
             yield {"doc": doc, "env": gen_env(rng, doc)}
+        # names that are proper prefixes of one another
+        use_pool(True)
+        try:
+            for i in range(800 if tier == "quick" else 12000):
+                doc = gen_items(rng, 0, False, [rng.randint(3, 9)])
+                yield {"doc": doc, "env": gen_env(rng, doc)}
+        finally:
+            use_pool(False)
 
     # -- implementation
     def impl(self, case):
